@@ -182,6 +182,10 @@ def judge_formulas(ctx, items, tag):
             if not t.ok:
                 r.seen('library_exceptions', t.exc_name)
                 r.nt(text)
+                rep = pipeline.refusal_repeatable(t)
+                r.count('refusals_asked_again')
+                if rep:
+                    report(r, ID, None, case, rep, 'a library exception again (not None, a stale class or a foreign exception)', monitor='refusal-not-repeatable')
                 continue
             if not isinstance(t.value, str):
                 report(r, ID, None, case, type(t.value).__name__, 'source text', monitor='translate-returns-text')
@@ -215,7 +219,7 @@ def classify(text, out):
 # ---- whole workbooks ----------------------------------------------------------------------------------
 HOSTILE_TITLES = ["it's", 'say "hi"', 'a{0}b', '{x}', '%s %d', 'Лист1', 'my sheet', '2024', 'a.b', 'T-1', 'x' * 31, ' lead', 'trail ', 'a,b;c', '(p)', 'A1', 'SUM',
                   'TRUE', "'q'", 'x=y', 'a+b', 'a&b', 'tab\tx', '#N/A', '$A$1', 'ñandú', '日本', 'a~b', 'a|b', 'class', 'self', 'None']
-HOSTILE_CONSTS = ["it's", 'say "hi"', 'back\\slash', 'trail\\', 'line\nbreak', 'cr\r\nlf', 'tab\t', '{0}', '{', '}', '{{}}', '%s', '%(x)s', "'''", '"""', "'; import os; '",
+HOSTILE_CONSTS = ["\U0001F680 rocket", "\U0001D518\U00020000", "e\u0301", "\ufeffbom", "a\u2028b", "{titles}", "{sheets_size}", "{functions}", "{0}{1}", "it's", 'say "hi"', 'back\\slash', 'trail\\', 'line\nbreak', 'cr\r\nlf', 'tab\t', '{0}', '{', '}', '{{}}', '%s', '%(x)s', "'''", '"""', "'; import os; '",
                   '\\n', '\\x41', '\\', 'x' * 5000, 'ünï', ' sep', '\x7f', '#N/A', '#REF!', '#DIV/0!', '00', '1e5', 'TRUE', "=", "'=1+1", ' ', 'None', 'self._x',
                   0, -0.0, 1, -1, 2 ** 31, 2 ** 53 + 1, 2 ** 63, 10 ** 20, 1e308, 5e-324, 0.1, -2.5, 1e-7, 123456789.123456789, True, False,
                   dt.datetime(1900, 1, 1), dt.datetime(9999, 12, 31, 23, 59, 59), dt.datetime(2024, 2, 29, 12, 0, 0, 500000), dt.date(2000, 1, 1), dt.time(0, 0), dt.time(23, 59, 59),
